@@ -7,6 +7,7 @@ import (
 	"go/types"
 	"os"
 	"path/filepath"
+	"sort"
 	"strings"
 	"sync"
 	"sync/atomic"
@@ -247,4 +248,67 @@ func (p *Program) SourceSig(where string) string {
 		}
 	}
 	return fn + ":" + base
+}
+
+// ExportedConnMethodsSending lists exported methods of *client.Conn declared in
+// commands.go, plus any exported method whose static call graph reaches
+// (*Conn).Raw or sends on a channel directly (other than lifecycle methods).
+func (p *Program) ExportedConnMethodsSending() []string {
+	pkg := p.Pkgs[repoMod+"/client"]
+	if pkg == nil {
+		return nil
+	}
+	connT := pkg.Type("Conn")
+	if connT == nil {
+		return nil
+	}
+	ms := p.Prog.MethodSets.MethodSet(types.NewPointer(connT.Type()))
+	reach := map[*ssa.Function]bool{}
+	var reaches func(fn *ssa.Function, depth int) bool
+	reaches = func(fn *ssa.Function, depth int) bool {
+		if fn == nil || fn.Blocks == nil || depth > 6 {
+			return false
+		}
+		if v, ok := reach[fn]; ok {
+			return v
+		}
+		reach[fn] = false
+		res := false
+		for _, b := range fn.Blocks {
+			for _, in := range b.Instrs {
+				switch x := in.(type) {
+				case *ssa.Send:
+					res = true
+				case ssa.CallInstruction:
+					if callee := x.Common().StaticCallee(); callee != nil {
+						if callee.Name() == "Raw" || (strings.HasPrefix(pkgPathOf(callee), repoMod) && reaches(callee, depth+1)) {
+							res = true
+						}
+					}
+				}
+			}
+		}
+		reach[fn] = res
+		return res
+	}
+	skip := map[string]bool{"Connect": true, "ConnectContext": true, "ConnectTo": true, "ConnectToContext": true, "Close": true,
+		"EnableStateTracking": true, "DisableStateTracking": true, "LogPanic": true, "String": true}
+	var out []string
+	for i := 0; i < ms.Len(); i++ {
+		sel := ms.At(i)
+		name := sel.Obj().Name()
+		if !sel.Obj().Exported() || skip[name] {
+			continue
+		}
+		fn := p.Prog.MethodValue(sel)
+		if fn == nil {
+			continue
+		}
+		file := p.Fset.Position(fn.Pos()).Filename
+		if strings.HasSuffix(file, "/commands.go") || reaches(fn, 0) {
+			out = append(out, name)
+		}
+	}
+	sort.Strings(out)
+	return out
 }
